@@ -383,6 +383,32 @@ def rule_cover(run):
         run.shape(r == 'equal', 'mulgrid.refine :: connections added late join edge columns only', 'guard %s' % norm(late[0].test), where=fi.where(late[0]))
 
 
+def rule_areasync(run):
+    run.rule('AREASYNC', "a function that edits a column's node list recomputes that column's cached area (and centre)", floor=1)
+    prog = run.prog
+    n = 0
+    for fi in prog.all_functions(['mulgrids']):
+        edits = []
+        for x in walk_no_nested(fi.node):
+            if isinstance(x, ast.Delete):
+                for t in x.targets:
+                    if isinstance(t, ast.Subscript) and isinstance(t.value, ast.Attribute) and t.value.attr == 'node' and dotted(t.value.value) != 'self':
+                        edits.append((norm(t.value.value), x))
+            if isinstance(x, ast.Call) and call_name(x) in ('append', 'insert', 'remove', 'pop') and isinstance(x.func.value, ast.Attribute) \
+               and x.func.value.attr == 'node' and isinstance(x.func.value.value, ast.Name) and x.func.value.value.id not in ('self', 'con', 'geocon'):
+                edits.append((norm(x.func.value.value), x))
+        for owner, node in edits:
+            n += 1
+            key = '%s :: %s.node edited' % (fi.short, owner)
+            area = any((isinstance(c, ast.Call) and call_name(c) == 'get_area' and norm(c.func.value) == owner) for c in walk_no_nested(fi.node)) or \
+                any(isinstance(a, ast.Assign) and norm(a.targets[0]) == owner + '.area' for a in walk_no_nested(fi.node))
+            if area: run.ok(key, where=fi.where(node))
+            else:
+                run.violated(key, 'the node list of %s changes but %s.area keeps the value computed for the old polygon: the geometry\'s total '
+                             'area (and every block volume of that column) is wrong afterwards' % (owner, owner), where=fi.where(node))
+    if n == 0: run.unknown('AREASYNC :: sites', 'no edit of a column node list found (split_column is expected to have one)')
+
+
 def rule_inherit(run):
     run.rule('INHERIT', 'every column constructed by refine / subdivide_column / split_column gets the parent '
              "column's surface", floor=3)
@@ -478,5 +504,6 @@ def check(run):
     run.guarded('DISPATCH', rule_dispatch)
     run.guarded('DECOMP', rule_decomp_dispatch)
     run.guarded('COVER', rule_cover)
+    run.guarded('AREASYNC', rule_areasync)
     run.guarded('INHERIT', rule_inherit)
     run.guarded('PART', rule_part)
